@@ -12,6 +12,7 @@ import (
 	"strconv"
 	"strings"
 	"unicode"
+	"unicode/utf16"
 	"unicode/utf8"
 )
 
@@ -59,6 +60,87 @@ func parseField(field string, line int) (any, error) {
 		return boolean, nil
 	}
 	return nil, fmt.Errorf("not a valid JSON - invalid value '%s' on line %d", field, line)
+}
+
+/*
+Decodes the content of a JSON string literal (without the surrounding quotation marks).
+All JSON escape sequences are supported, including the escaped solidus and UTF-16 surrogate pairs.
+Other escape sequences are interpreted as in Go string literals, unknown ones are kept as they are.
+Parameters:
+  - str - content of the literal.
+
+Returns:
+  - decoded string.
+*/
+func unquote(str string) string {
+	if !strings.Contains(str, "\\") {
+		return str
+	}
+	var result strings.Builder
+	for len(str) > 0 {
+		// Characters up to the next escape sequence
+		if str[0] != '\\' {
+			next := strings.Index(str, "\\")
+			if next < 0 {
+				next = len(str)
+			}
+			result.WriteString(str[:next])
+			str = str[next:]
+			continue
+		}
+		// Escaped solidus
+		if strings.HasPrefix(str, "\\/") {
+			result.WriteByte('/')
+			str = str[2:]
+			continue
+		}
+		// Surrogate pair (a lone surrogate is replaced by U+FFFD)
+		if high, ok := unquoteHex(str); ok && utf16.IsSurrogate(high) {
+			str = str[6:]
+			char := utf8.RuneError
+			if low, ok := unquoteHex(str); ok {
+				if char = utf16.DecodeRune(high, low); char != utf8.RuneError {
+					str = str[6:]
+				}
+			}
+			result.WriteRune(char)
+			continue
+		}
+		// Other escape sequences
+		char, multibyte, tail, err := strconv.UnquoteChar(str, '"')
+		if err != nil {
+			result.WriteByte(str[0])
+			str = str[1:]
+			continue
+		}
+		if char < utf8.RuneSelf || !multibyte {
+			result.WriteByte(byte(char))
+		} else {
+			result.WriteRune(char)
+		}
+		str = tail
+	}
+	return result.String()
+}
+
+/*
+Reads a \uXXXX escape sequence at the beginning of a string.
+Parameters:
+  - str - string to read from.
+
+Returns:
+  - decoded UTF-16 code unit,
+  - true if the string starts with such a sequence, false otherwise.
+*/
+func unquoteHex(str string) (rune, bool) {
+	if len(str) < 6 || str[0] != '\\' || str[1] != 'u' {
+		return 0, false
+	}
+	unit, err := strconv.ParseUint(str[2:6], 16, 16)
+	if err != nil {
+		return 0, false
+	}
+	return rune(unit), true
 }
 
 /*
@@ -168,7 +250,7 @@ func parseList(json string, line *int) (List, int, error) {
 				continue
 			}
 			if char == '"' {
-				str, _ := strconv.Unquote(fmt.Sprintf(`"%s"`, val.String()))
+				str := unquote(val.String())
 				list.Add(str)
 				val.Reset()
 				state = stateValAfterString
@@ -279,7 +361,7 @@ func parseObject(json string, line *int) (Object, int, error) {
 			if char != ':' {
 				return nil, 0, fmt.Errorf("not a valid JSON - expecting ':', got '%s' on line %d", string(char), *line)
 			}
-			str, _ := strconv.Unquote(fmt.Sprintf(`"%s"`, key.String()))
+			str := unquote(key.String())
 			key.Reset()
 			key.WriteString(str)
 			val.Reset()
@@ -378,7 +460,7 @@ func parseObject(json string, line *int) (Object, int, error) {
 				continue
 			}
 			if char == '"' {
-				str, _ := strconv.Unquote(fmt.Sprintf(`"%s"`, val.String()))
+				str := unquote(val.String())
 				object.Set(key.String(), str)
 				state = stateValAfterString
 				continue
